@@ -21,8 +21,8 @@ ASSUMPTIONS = ["reference interpreter bbv/model/refsem.py and mpmath reference a
                "reference lexer self-check of the rendered text"]
 BUDGET = {"quick": (2000, 4), "thorough": (64000, 16)}
 
-CFG_Q = S.Cfg(max_items=8, depth=2)
-CFG_T = S.Cfg(max_items=16, depth=3)
+CFG_Q = S.Cfg(ascii_only=False, max_items=8, depth=2)
+CFG_T = S.Cfg(ascii_only=False, max_items=16, depth=3)
 
 
 def strategy(tier):
